@@ -7,6 +7,30 @@ import types
 WRAP = "\nVF_WRAP: v=%s rest=VF_REST ;\n\nVF_REST: /(?s).*/ ;\n"
 
 
+class Typed:
+    """a bool or float in a canonical form: equal only to the same value of the same type (True == 1 == 1.0 in Python,
+    and an oracle that cannot tell them apart is blind to a value that came back as another type)"""
+    __slots__ = ('v',)
+
+    def __init__(self, v):
+        self.v = v
+
+    def __eq__(self, other):
+        return isinstance(other, Typed) and type(self.v) is type(other.v) and (self.v == other.v or (self.v != self.v and other.v != other.v))
+
+    def __ne__(self, other):
+        return not self.__eq__(other)
+
+    def __hash__(self):
+        return hash((type(self.v).__name__, self.v))
+
+    def __repr__(self):
+        return repr(self.v)
+
+    def __reduce__(self):
+        return (Typed, (self.v,))
+
+
 def canon(x, keep_parseinfo=False, depth=0):
     """my own canonical form of an AST / node tree (does not use asjson)"""
     if depth > 200:
@@ -26,7 +50,11 @@ def canon(x, keep_parseinfo=False, depth=0):
         if 'ast' in d and len(d) > 2:
             pass
         return d
-    if isinstance(x, (str, int, float, bool)) or x is None:
+    if isinstance(x, (bool, float)):
+        return Typed(x)
+    if isinstance(x, (str, int)) or x is None:
+        return x
+    if isinstance(x, Typed):
         return x
     return repr(x)
 
